@@ -631,7 +631,29 @@ func (g *Gen) header() string {
 		sb.WriteString(d + "\n")
 	}
 	sb.WriteString("; BEGIN-SPEC\n")
-	sb.WriteString(g.prog.specPrelude)
+	sp := g.prog.specPrelude
+	if g.con != nil {
+		for _, n := range g.con.Opaque {
+			if i := strings.Index(n, ":"); i >= 0 {
+				if g.onlyProp != n[:i] {
+					continue
+				}
+				n = n[i+1:]
+			}
+			if n == "*" {
+				for _, d := range g.prog.specOpaque {
+					sp = strings.Replace(sp, d[0], d[1], 1)
+				}
+				continue
+			}
+			if d, ok := g.prog.specOpaque[n]; ok {
+				sp = strings.Replace(sp, d[0], d[1], 1)
+			} else {
+				panic(fmt.Errorf("opaque: unknown spec function %s", n))
+			}
+		}
+	}
+	sb.WriteString(sp)
 	sb.WriteString("; END-SPEC\n")
 	for _, d := range g.decls {
 		sb.WriteString(d + "\n")
